@@ -42,6 +42,36 @@ var t0 = time.Date(2025, time.January, 1, 0, 0, 0, 0, time.UTC)
 // world is the PKI a case lives in.
 type world struct {
 	root, foreignRoot, sign, attackerSelf, attackerForeign *certAndKey
+	// signAlt[i] is a signing certificate for the genuine signing key, issued by the genuine root with
+	// issuerAlgs[i] instead of PSS/SHA-256 (the issuer's scheme says nothing about the key's scheme).
+	signAlt []*certAndKey
+}
+
+var issuerAlgs = []x509.SignatureAlgorithm{x509.SHA256WithRSA, x509.SHA384WithRSA, x509.SHA384WithRSAPSS, x509.SHA512WithRSAPSS, x509.SHA512WithRSA}
+
+// signWith signs payload with k in the scheme alg names.
+func signWith(k *rsa.PrivateKey, alg x509.SignatureAlgorithm, payload []byte) []byte {
+	var h crypto.Hash
+	var d []byte
+	switch alg {
+	case x509.SHA256WithRSA, x509.SHA256WithRSAPSS:
+		x := sha256.Sum256(payload)
+		h, d = crypto.SHA256, x[:]
+	case x509.SHA384WithRSA, x509.SHA384WithRSAPSS:
+		x := sha512.Sum384(payload)
+		h, d = crypto.SHA384, x[:]
+	default:
+		x := sha512.Sum512(payload)
+		h, d = crypto.SHA512, x[:]
+	}
+	var sig []byte
+	switch alg {
+	case x509.SHA256WithRSAPSS, x509.SHA384WithRSAPSS, x509.SHA512WithRSAPSS:
+		sig, _ = rsa.SignPSS(rand.Reader, k, h, d, &rsa.PSSOptions{SaltLength: rsa.PSSSaltLengthEqualsHash})
+	default:
+		sig, _ = rsa.SignPKCS1v15(rand.Reader, k, h, d)
+	}
+	return sig
 }
 
 type certAndKey struct {
@@ -71,6 +101,11 @@ func makeWorld(t *rapid.T) *world {
 	w.attackerSelf.cert = pki.MakeCert(pki.CertSpec{CN: "verif-signer", Serial: 2, NotBefore: snb, NotAfter: sna, Key: w.attackerSelf.key})
 	w.attackerForeign = &certAndKey{key: pki.Key(2)}
 	w.attackerForeign.cert = pki.MakeCert(pki.CertSpec{CN: "verif-signer", Serial: 2, NotBefore: snb, NotAfter: sna, Key: w.attackerForeign.key, Parent: w.foreignRoot.cert, ParentKey: w.foreignRoot.key})
+	for i, a := range issuerAlgs {
+		c := &certAndKey{key: w.sign.key}
+		c.cert = pki.MakeCert(pki.CertSpec{CN: "verif-signer", Serial: int64(10 + i), NotBefore: snb, NotAfter: sna, Key: c.key, Parent: w.root.cert, ParentKey: w.root.key, SigAlg: a})
+		w.signAlt = append(w.signAlt, c)
+	}
 	return w
 }
 
@@ -99,7 +134,7 @@ func baseGolden() *epb.VMGoldenMeasurement {
 var mutations = []string{"none", "flip-signature", "flip-payload", "flip-certificate", "truncate-signature", "extend-signature",
 	"resign-attacker-key-keep-cert", "attacker-selfsigned-cert", "attacker-cert-from-foreign-root", "pkcs1v15-signature", "pss-sha384-signature",
 	"payload-field-changed-old-signature", "payload-unknown-field-appended", "empty-signature", "empty-certificate", "signed-by-root-key-root-as-cert",
-	"pss-max-salt", "signature-of-other-payload"}
+	"pss-max-salt", "signature-of-other-payload", "alt-issued-cert-signature-in-issuer-scheme", "alt-issued-cert-pss-signature"}
 
 type mutated struct {
 	e      *epb.VMLaunchEndorsement
@@ -180,6 +215,17 @@ func mutate(t *rapid.T, w *world) mutated {
 	case "pss-max-salt":
 		d := sha256.Sum256(e.SerializedUefiGolden)
 		e.Signature, _ = rsa.SignPSS(rand.Reader, w.sign.key, crypto.SHA256, d[:], &rsa.PSSOptions{SaltLength: rsa.PSSSaltLengthAuto})
+	case "alt-issued-cert-signature-in-issuer-scheme":
+		// the certificate chains and is in its window, but the endorsement is signed in the scheme the
+		// ISSUER used for the certificate, not PSS/SHA-256
+		i := rapid.IntRange(0, len(issuerAlgs)-1).Draw(t, "issuerAlg")
+		m.e = pki.Endorse(g, w.signAlt[i].cert.Raw, w.sign.key)
+		m.e.Signature = signWith(w.sign.key, issuerAlgs[i], m.e.SerializedUefiGolden)
+		m.bucket = issuerAlgs[i].String()
+	case "alt-issued-cert-pss-signature":
+		i := rapid.IntRange(0, len(issuerAlgs)-1).Draw(t, "issuerAlg")
+		m.e = pki.Endorse(g, w.signAlt[i].cert.Raw, w.sign.key)
+		m.bucket = issuerAlgs[i].String()
 	case "signature-of-other-payload":
 		g2 := baseGolden()
 		g2.ClSpec = 9999
@@ -448,7 +494,7 @@ func trunc(s string, n int) string {
 	return s
 }
 
-const ruleText = "genuine endorsement (harness CA, RSA-2048, PSS/SHA-256) x mutation {none, bit flip in signature/payload/certificate at drawn position, truncate/extend signature, re-sign with attacker key, attacker self-signed cert, attacker cert from foreign root with identical subject, PKCS#1v1.5, PSS/SHA-384, payload field changed or unknown field appended with old signature, empty signature/certificate, root-as-cert, max-salt PSS, signature of another payload} x root set {genuine, foreign same-subject, both, empty pool, nil, leaf only, genuine+leaf} x time {inside, NotBefore-1s, NotBefore, NotAfter, NotAfter+1s, zero=now, far future} with drawn validity windows x entry point {verify.Endorsement, EndorsementProto, validator closure (blob/opts/getter), SevValidate (opts/extras/getter), TdxValidate, CLI verify|sev validate|tdx validate} x SNP options; oracle: accept => RefAuthentic(endorsement, roots, t) (independent RSA-PSS + issuer-signature + window check, deliberately weaker than crypto/x509); genuine+trusted+in-window => accept; non-trivial = reaches the certificate/signature stage and breaks an authenticity clause, or accepted genuine; distinct = (entry, mutation, roots, time, position bucket, SNP option shape)"
+const ruleText = "genuine endorsement (harness CA, RSA-2048, PSS/SHA-256) x mutation {none, bit flip in signature/payload/certificate at drawn position, truncate/extend signature, re-sign with attacker key, attacker self-signed cert, attacker cert from foreign root with identical subject, PKCS#1v1.5, PSS/SHA-384, certificate issued in another scheme {PKCS#1v1.5 or PSS with SHA-256/384/512} with the endorsement signed in that scheme or in PSS/SHA-256, payload field changed or unknown field appended with old signature, empty signature/certificate, root-as-cert, max-salt PSS, signature of another payload} x root set {genuine, foreign same-subject, both, empty pool, nil, leaf only, genuine+leaf} x time {inside, NotBefore-1s, NotBefore, NotAfter, NotAfter+1s, zero=now, far future} with drawn validity windows x entry point {verify.Endorsement, EndorsementProto, validator closure (blob/opts/getter), SevValidate (opts/extras/getter), TdxValidate, CLI verify|sev validate|tdx validate} x SNP options; oracle: accept => RefAuthentic(endorsement, roots, t) (independent RSA-PSS + issuer-signature + window check, deliberately weaker than crypto/x509); genuine+trusted+in-window => accept; non-trivial = reaches the certificate/signature stage and breaks an authenticity clause, or accepted genuine; distinct = (entry, mutation, roots, time, position bucket, SNP option shape)"
 
 func TestAuthenticity(t *testing.T) {
 	const name = "authenticity/random"
